@@ -166,8 +166,39 @@ def helpers(ctx):
     good = [val for kind, val, st in outs if kind == 'return']
     VOC = {'_concat', 'np.argsort', 'np.sort', 'np.lexsort', 'np.concatenate', 'np.flip', 'np.take', 'np.unique', 'np.arange', 'len', 'sorted'}
     okt, why, und = False, '', ''
+    # a shortcut return of the identity order (`return concatenated, np.arange(n)`) is the stable argsort exactly when the concatenated times are non-decreasing: the guard
+    # decides. np.diff on the on-disk dtype is the recognised wrong form (spike times are stored unsigned by KiloSort: the differences wrap and are never negative, so the
+    # test always passes and the probes are concatenated instead of interleaved); an element-wise comparison of neighbours is the good form.
+    ident = []
+    for r_ in ft.returns():
+        rv = r_.value
+        if isinstance(rv, ast.Tuple) and len(rv.elts) == 2 and isinstance(ft.expand(rv.elts[1]), ast.Call) and dotted(ft.expand(rv.elts[1]).func) in ('np.arange', 'range'):
+            ident.append(r_)
+    for r_ in ident:
+        tests = [i_.test if br_ == 'body' else ast.UnaryOp(op=ast.Not(), operand=i_.test) for i_, br_ in q.enclosing_ifs(ft, r_)]
+        g_ok = g_bad = None
+        for t_ in tests:
+            tx = ft.expand(t_)
+            if Pat().any(['np.all(np.diff(E_x) >= 0)', 'np.all(np.diff(E_x) > 0)', '(np.diff(E_x) >= 0).all()', 'not np.any(np.diff(E_x) < 0)', 'not (np.diff(E_x) < 0).any()',
+                          'np.all(np.diff(E_x) >= 0, REST)', 'np.diff(E_x).min() >= 0', 'np.min(np.diff(E_x)) >= 0'], tx):
+                signed = any(isinstance(n_, ast.Call) and ((isinstance(n_.func, ast.Attribute) and n_.func.attr == 'astype') or dotted(n_.func) in ('np.int64', 'np.asarray', 'np.array') and
+                             any(k_.arg == 'dtype' for k_ in n_.keywords)) for n_ in ast.walk(tx))
+                if not signed:
+                    g_bad = t_
+            elif Pat().any(['np.all(E_x[1:] >= E_x[:-1])', 'np.all(E_x[:-1] <= E_x[1:])', '(E_x[1:] >= E_x[:-1]).all()', '(E_x[:-1] <= E_x[1:]).all()',
+                            'not np.any(E_x[1:] < E_x[:-1])', 'not np.any(E_x[:-1] > E_x[1:])'], tx):
+                g_ok = t_
+        if g_bad is not None:
+            ctx.violated('C11.A1', ft, g_bad, 'the identity order is returned when `%s`: np.diff is taken in the stored dtype of the spike times, and differences of UNSIGNED times wrap '
+                         'instead of becoming negative, so the test passes for interleaved probes too and their spikes are concatenated, not merged in time order' % unparse(g_bad)[:80])
+        elif g_ok is not None:
+            ctx.holds('C11.A1', ft, 'the identity order is returned only when every concatenated time is >= its predecessor (the stable argsort of a sorted array)', g_ok)
+        else:
+            ctx.undecided('C11.A1', ft, 'a return of the identity spike order under a condition that was not recognised', r_)
     for v in good:
         v = _canon(_strip(v))
+        if ident and is_t(v) and v[1] == 'tuple' and len(v) == 4 and is_t(v[3]) and v[3][1] == 'call' and v[3][2] in ('np.arange', 'range'):
+            continue
         if is_t(v) and v[1] == 'tuple' and len(v) == 4:
             times, order = v[2], v[3]
             cat = T('call', '_concat', _seq_param(ft))
@@ -195,10 +226,10 @@ def helpers(ctx):
                     und = 'computation of the merged times `%s` not recognised' % show(times)[:60]
         else:
             und = '_load_multiple_spike_times does not return a pair (%s)' % show(v)[:60]
-    if okt:
-        ctx.holds('C11.A1', ft, 'spike_order = stable argsort of the concatenated spike times; merged times = concatenated[order]', '_load_multiple_spike_times')
-    elif why:
+    if why:
         ctx.violated('C11.A1', ft, '_load_multiple_spike_times', why)
+    elif okt and not und:
+        ctx.holds('C11.A1', ft, 'spike_order = stable argsort of the concatenated spike times; merged times = concatenated[order]', '_load_multiple_spike_times')
     else:
         ctx.undecided('C11.A1', ft, und or 'no return of _load_multiple_spike_times was reached')
     fa = repo.func(MG, '_load_multiple_spike_arrays')
